@@ -406,6 +406,8 @@ class Run:
         for k in self.known_hits:
             out_lines.append(f"KNOWN-FINDING: property={self.id} {k['text']} [match={k['match']}]")
         written = 0
+        if os.environ.get("VERIF_DUMP_VIOLATIONS"):     # maintainer aid: every violation text, for triage
+            Path(os.environ["VERIF_DUMP_VIOLATIONS"]).write_text(json.dumps(self.violations, indent=1))
         for v in self.violations[:5]:
             code = 1
             hsh = hashlib.sha256(v["key"].encode()).hexdigest()[:10]
